@@ -51,6 +51,9 @@ pub struct Cfg {
     pub min_weight_leaf: u8,
     /// naive Bayes: fit in this many incremental batches (1 = plain fit)
     pub batches: usize,
+    /// trees: last feature column is a copy of the first
+    #[serde(default)]
+    pub dup_column: bool,
 }
 
 /// canonical JSON: object keys sorted (HashMap-backed models are compared by content)
@@ -110,6 +113,11 @@ impl Cfg {
             _ => 2,
         };
         let mut x = eighths(self.data_seed, self.n, self.p);
+        // corner: the last column repeats the first one (every split on one has an equally good twin)
+        if self.dup_column && self.p >= 2 {
+            let c0 = x.column(0).to_owned();
+            x.column_mut(self.p - 1).assign(&c0);
+        }
         let mut y = data::labels_from(&x, self.data_seed, classes, 0.25);
         if self.kind == Kind::TreeTwoClassTies {
             // rows 2i and 2i+1 (first third of the data) are identical twins with opposite labels
@@ -129,7 +137,11 @@ impl Cfg {
 
     fn run_tree(&self, out: &mut Out) {
         let (x, y, w) = self.tree_data();
-        let q = eighths(self.data_seed ^ 0x99, 64, self.p);
+        let mut q = eighths(self.data_seed ^ 0x99, 64, self.p);
+        if self.dup_column && self.p >= 2 {
+            let c0 = q.column(0).to_owned();
+            q.column_mut(self.p - 1).assign(&c0);
+        }
         let mut ds = DatasetBase::new(x.clone(), y);
         if let Some(w) = w {
             ds = ds.with_weights(w);
@@ -379,6 +391,7 @@ impl Runnable for Cfg {
         obs.class_if(self.kind == Kind::GaussianNb && self.batches > 1, "gaussian_nb_incremental");
         if self.is_tree() {
             obs.class_if(self.entropy && self.kind != Kind::TreeDefaults, "tree_entropy");
+            obs.class_if(self.dup_column && self.p >= 2, "tree_duplicate_feature_column");
             if let Some(crate::driver::Outcome::Done(o)) = runs.first().map(|r| &r.outcome) {
                 let leaves: usize = o.note_of("leaves").and_then(|s| s.parse().ok()).unwrap_or(0);
                 let feats: usize = o.note_of("distinct_features").and_then(|s| s.parse().ok()).unwrap_or(0);
@@ -414,9 +427,9 @@ pub fn strategy(tier: Tier) -> impl Strategy<Value = Cfg> {
     ];
     (
         (kind, any::<u64>(), 12usize..=max_n, 1usize..=5, 2usize..=5),
-        (any::<bool>(), 0usize..=6, 1u8..=6, 1u8..=3, 1usize..=3),
+        (any::<bool>(), 0usize..=6, 1u8..=6, 1u8..=3, 1usize..=3, proptest::bool::weighted(0.3)),
     )
-        .prop_map(|((kind, data_seed, n, p, classes), (entropy, max_depth, min_weight_split, min_weight_leaf, batches))| Cfg {
+        .prop_map(|((kind, data_seed, n, p, classes), (entropy, max_depth, min_weight_split, min_weight_leaf, batches, dup_column))| Cfg {
             kind,
             data_seed,
             n,
@@ -427,5 +440,6 @@ pub fn strategy(tier: Tier) -> impl Strategy<Value = Cfg> {
             min_weight_split,
             min_weight_leaf,
             batches,
+            dup_column,
         })
 }
